@@ -37,7 +37,7 @@ def _one(args):
             redecl = {'op': 'redeclare', 'i': j, 'arg': solver_gen.sig(rnd.uniform(0.4, 1))}
             first_eta = elems[j]['rel']['arg']
             elems[j]['rel'] = dict(elems[j]['rel'], arg=redecl['arg'])       # k below is computed for the final declaration
-        if m['i0'] is not None:
+        if m['i0'] is not None and m['imax'] is not None:
             dz = float(m['i0']) / float(m['imax'])
             D = rnd.choice([F(1), F(1), solver_gen.sig(rnd.uniform(dz * 1.5 + 0.05, 1), 3), -solver_gen.sig(rnd.uniform(dz * 1.5 + 0.05, 1), 3)])
         else:
@@ -47,7 +47,7 @@ def _one(args):
         # rate constant of the abstract instance (the trace spec recomputes it from what the objects hold)
         rp = solver_gen.ratio_prod(elems)
         ep = F(solver_gen.eff_prod(elems))
-        if m['i0'] is not None:
+        if m['i0'] is not None and m['imax'] is not None:
             tmaxd = m['Tmax'] * ((D * m['imax'] - m['i0']) if D > 0 else (D * m['imax'] + m['i0'])) / (m['imax'] - m['i0'])
             w0d = D * m['w0']
         else:
